@@ -318,14 +318,14 @@ def export_save(save: data.Save) -> vsp.Save:
         return vsp.Save(mode=mode)
     if isinstance(save.targ, Signal):
         signal = save.targ.name
-    elif isinstance(save.targ, List[Signal]):
-        signal = ",".join([s.name for s in save.targ])
     elif isinstance(save.targ, str):
         signal = save.targ
-    elif isinstance(save.targ, List[str]):
+    elif isinstance(save.targ, list) and all(isinstance(s, Signal) for s in save.targ):
+        signal = ",".join([s.name for s in save.targ])
+    elif isinstance(save.targ, list) and all(isinstance(s, str) for s in save.targ):
         signal = ",".join([s for s in save.targ])
     else:
-        raise TypeError
+        raise TypeError(f"Invalid Save target {save.targ}")
     return vsp.Save(signal=signal)
 
 
